@@ -123,9 +123,17 @@ def argsortStable (keys : List Scalar) : List Nat :=
   let key := fun i => keys.getD i .nan
   (List.range keys.length).foldl (fun acc i => insertStable key i acc) []
 
-/-- the 1-D key column of a field (`np.asarray(getattr(self, sort_by))`): first component of
-each row (for a time the value in its own format is monotone in `jd1 + jd2`; the harness sorts
-on exactly representable epochs, see there) -/
+/-- the 1-D key column of a field (`np.asarray(self[sort_by])`): first component of each row; for a time /
+time delta the VALUE in the format of the field (third component of the row, after jd1, jd2) — epochs that differ
+in the field compare different, whatever `jd1 + jd2` rounds to (rows `[jd1, jd2]` without a value, as C10 builds
+them, fall back on `jd1 + jd2`) -/
+def timeKey : Row → Scalar
+  | [.num a, .num b] => .num (a + b)
+  -- an empty epoch is `datetime.min`, earlier than every real epoch
+  | _ :: _ :: .nan :: _ => .num 0
+  | _ :: _ :: v :: _ => v
+  | _ => .num 0
+
 def keyColumn (h : Heap) (f : Field) : M (List Scalar) :=
   match f with
   | .coll .. => .error .unsupported
@@ -135,10 +143,7 @@ def keyColumn (h : Heap) (f : Field) : M (List Scalar) :=
     | some ob =>
       if ob.ndim != 1 then .error .unsupported
       else if k == .time || k == .timeDelta then
-        -- an empty epoch is `datetime.min`, earlier than every real epoch
-        .ok (ob.rows.map (fun r => match r with
-          | [.num a, .num b] => .num (a + b)
-          | _ => .num 0))
+        .ok (ob.rows.map timeKey)
       else .ok (ob.rows.map (fun r => r.headD .nan))
 
 /-- the sorting half of `Dataset.merge_with(sort_by=…)` (after the `fix:`: `kind="stable"`):
@@ -330,6 +335,13 @@ def diffFactors (us : Units) (selfU otherU : Option (List String)) : M (List Rat
     | none => .error .value
   | _, _ => .ok []
 
+/-- the tag of `a - b`: `Time - Time` is a TimeDelta of the same scale, in format `timedelta` for two datetimes and
+`jd` (days) otherwise; `TimeDelta - TimeDelta` keeps the format of `a` -/
+def diffTag (k : Kind) (t : String) : String :=
+  if t == "" then "" else
+  if k == .time then "d:" ++ tagScale t ++ "/" ++ (if (t.splitOn "/").getLastD "" == "datetime" then "timedelta" else "jd")
+  else if k == .timeDelta then t else ""
+
 /-- one common leaf field of `Collection._difference`: the fields to `add_field`, in order.
 `si`/`oi` are the row indices of self / other, `cnt` the number of paired rows. -/
 def diffLeaf (us : Units) (si oi : Index) (cnt : Nat) (cs co : Bool) (nm : String) (k : Kind) (o : Nat)
@@ -356,7 +368,11 @@ def diffLeaf (us : Units) (si oi : Index) (cnt : Nat) (cs co : Bool) (nm : Strin
           | some k' =>
             -- (outside the modelled fragment: NumPy broadcasting of unequal shapes; the empty epoch)
             if oa.ndim != ob.ndim || oa.cols != ob.cols || (fs.length != 0 && fs.length != ob.cols) then .error .unsupported
-            else if k == .time && (oa.rows.any (fun r => r.contains .nan) || ob.rows.any (fun r => r.contains .nan)) then
+            else if k == .time && (oa.rows.any (fun r => r.contains .nan) || ob.rows.any (fun r => r.contains .nan)) ||
+                -- (outside the modelled fragment: `Time - Time` of different scales is a `TypeError`, values of
+                -- different formats / of formats other than mjd, jd, datetime do not subtract to the value of the result)
+                (k == .time || k == .timeDelta) && (oa.tag != ob.tag ||
+                  k == .time && !(oa.tag == "" || ["mjd", "jd", "datetime"].contains ((oa.tag.splitOn "/").getLastD ""))) then
               .error .unsupported
             else
               -- `self[f][self_idx] - other[f][other_idx] * factors`; a position difference refers to the
@@ -364,7 +380,8 @@ def diffLeaf (us : Units) (si oi : Index) (cnt : Nat) (cs co : Bool) (nm : Strin
               let rp := if k.hasOther then some a else if k.isDelta then oa.refPos else none
               .ok ([Field.leaf nm k' h2.length cnt u l],
                    h2 ++ [{ kind := k', ndim := oa.ndim, cols := oa.cols,
-                            rows := List.zipWith subRow oa.rows (ob.rows.map (scaleRow fs)), other := none, refPos := rp }])
+                            rows := List.zipWith subRow oa.rows (ob.rows.map (scaleRow fs)), other := none, refPos := rp,
+                            tag := diffTag k oa.tag }])
         | _, _ => .error .dangling
 
 /-- `Collection._difference`: the loop over `self._fields`; fields missing in `other` are skipped,
@@ -424,7 +441,7 @@ inductive Ref
 
 inductive Op
   | new (d n : Nat)
-  | obj (kind : Kind) (ndim cols : Nat) (rows : List Row) (other refPos : Option Ref)
+  | obj (kind : Kind) (ndim cols : Nat) (rows : List Row) (other refPos : Option Ref) (tag : String)
   | add (d : Nat) (path : Path) (kind : Kind) (val : Ref) (unit : Option String) (level : Nat)
   | addColl (d : Nat) (path : Path) (level : Nat)
   | del (d : Nat) (path : Path)
@@ -440,7 +457,7 @@ structure W where
   heap : Heap := []
   ds : List (Option DS) := []
   tab : List Nat := []
-  units : Units := []
+  units : Units := {}
   deriving Repr, Inhabited
 
 def W.getDs (w : W) (d : Nat) : M DS := match w.ds[d]? with
@@ -490,10 +507,10 @@ def mergeLoop (us : Units) (h : Heap) (d : DS) (w : W) (di : Nat) : List Nat →
 def step (w : W) (op : Op) : M (W × Out) :=
   match op with
   | .new d n => .ok (w.setDs d { numObs := n, fields := [] }, .none)
-  | .obj k ndim cols rows other refPos =>
+  | .obj k ndim cols rows other refPos tag =>
     match w.resolveOpt other, w.resolveOpt refPos with
     | .ok o, .ok r =>
-      .ok ({ w with heap := w.heap ++ [{ kind := k, ndim := ndim, cols := cols, rows := rows, other := o, refPos := r }],
+      .ok ({ w with heap := w.heap ++ [{ kind := k, ndim := ndim, cols := cols, rows := rows, other := o, refPos := r, tag := tag }],
                     tab := w.tab ++ [w.heap.length] }, .none)
     | .error e, _ => .error e
     | _, .error e => .error e
